@@ -76,7 +76,8 @@ OriginCerts == {"valid", "expired", "wrongname", "untrusted", "proxyname"}
 \* through an upstream proxy reached over TLS (which the session's own requests then pass through as well); the origin
 \* is verified against the name the client asked for whatever came before
 MCases == { c \in [auth : AuthKinds, port : {443, 8443}, sni : SniKinds, origin : OriginCerts, excluded : BOOLEAN, xfp : {"absent", "https", "http"},
-                     form : {"origin", "absHttps", "absHttp"},       \* request-target of the inner request: origin-form or an absolute URL
+                     form : {"origin", "absHttps", "absHttp", "origin10NoHost"},   \* request-target of the inner request: origin-form, an absolute
+                                                                                  \* URL, or an HTTP/1.0 request without Host (its target is the session's authority)
                      prior : {"none", "tunnelViaTlsUpstream"}] :
              /\ (c.prior # "none" => c.auth = "dns" /\ c.port = 443 /\ c.sni # "other" /\ ~c.excluded /\ c.xfp = "absent" /\ c.form = "origin")
              /\ (c.origin = "proxyname" => c.prior # "none")
